@@ -391,6 +391,7 @@ func postStride(p crashProgram) int {
 //
 //	plain       Open, read, commit to every second key, Close, Open, read, Close
 //	idle        Open, read, Close, Open, read, Close (nothing is committed by the recovered incarnation)
+//	idlecrash   Open, read, then die WITHOUT Close and without having committed anything ("second" follows)
 //	crashafter  Open, read, commit to every second key, then die WITHOUT Close (a second, plain crash
 //	            right after acknowledged post-recovery commits); writes the first half of the result
 //	second      Open, read (the "post" half of the result), Close
@@ -435,9 +436,9 @@ func crashVerifyMain(args []string) int {
 	})
 	// the recovered store accepts and retains further commits
 	// (every second key only: the others must keep the value they had right after recovery)
-	out.Idle = mode == "idle"
+	out.Idle = mode == "idle" || mode == "idlecrash"
 	for i, k := range p.Keys {
-		if i%postStride(p) != 0 || mode == "idle" {
+		if i%postStride(p) != 0 || out.Idle {
 			continue
 		}
 		kk := k
@@ -445,7 +446,7 @@ func crashVerifyMain(args []string) int {
 			panic(fmt.Sprintf("post-recovery Update returned %v", err))
 		}
 	}
-	if mode == "crashafter" {
+	if mode == "crashafter" || mode == "idlecrash" {
 		out.State = hexMap(out.State)
 		b, _ := json.Marshal(out)
 		os.WriteFile(filepath.Join(side, "verify1.json"), b, 0644)
@@ -728,7 +729,14 @@ func (cc *crashCaseCtx) verifyAndJudge(dir, side string, st ackState, atomic boo
 	cc.nverify++
 	var code int
 	var out string
-	if cc.nverify%3 == 0 {
+	if cc.nverify%6 == 4 {
+		code, out = child(cc.env, "crash-verify", dir, side, cc.caseFile, "idlecrash")
+		if code == 0 {
+			where += "; the recovered incarnation commits nothing and dies without Close, Open"
+			cc.res.AddObs("recoveries_followed_by_idle_crash", 1)
+			code, out = child(cc.env, "crash-verify", dir, side, cc.caseFile, "second")
+		}
+	} else if cc.nverify%3 == 0 {
 		code, out = child(cc.env, "crash-verify", dir, side, cc.caseFile, "crashafter")
 		if code == 0 {
 			where += "; then commits to every second key and a second crash without Close"
